@@ -2,7 +2,7 @@
 import os
 import vlib, engine_common as ec
 
-TB = ["Print Assumptions: C03_core_once, C03_core_justified, C03_core_justified_unguarded_refuted closed under the global context",
+TB = ["Print Assumptions: C03_core_once, C03_core_justified, C03_core_justified_unguarded_refuted, C03_fw_once closed under the global context",
       "the theorems are about Engine/Core.v (inputs + Normal queries); executions of firewalls / projections / external inputs are judged on the real engine by the harness (justification of every executor invocation from its own record of previous reads) and compared with the full model, not proved (partial)",
       "known finding c03_projection_changeback (see known_findings.txt) is recognised by its shape: a projection re-run by backward projection whose reads are unchanged since its own last run because a dependency changed and changed back",
       ] + ec.ENGINE_TB
